@@ -6,7 +6,8 @@
    insertion, sift-down extraction) keep the heap property and the root minimal, for any strict weak order and
    any size.  The tie between serial.c and the reference executor is the correspondence run (dispatch logs). *)
 From Coq Require Import NArith List Permutation.
-From RS Require Import TW.App TW.Seq TW.SeqProofs Heap.HeapFun.
+From RS Require Import TW.App TW.Seq TW.SeqProofs TW.AppAbs TW.SeqRefines Heap.HeapFun.
+From RS.Abs Require Import Peel Abs.
 
 Theorem C10_step_dispatches_minimal_exactly_once : forall p tend stop s s',
   sorted (q_pending s) -> seq_step p tend stop s = Some s' ->
@@ -48,7 +49,17 @@ Theorem C10_heap_root_minimal : forall (A : Type) (cmp : A -> A -> bool),
   forall f n, heap_ok A cmp f n -> forall k, k < n -> cmp (f k) (f 0) = false.
 Proof. exact heap_root_min. Qed.
 
+(* The whole run, not one step: the reference executor started as the runtime starts (LP_INIT on every LP) and run until no
+   event is pending produces a dispatch log that is a sequential execution in the sense of the abstract theory (every step
+   dispatches a pending event minimal in the runtime's order, exactly once, and its outputs join the pending set). *)
+Theorem C10_reference_run_is_a_sequential_execution : forall p, prog_valid p = true ->
+  forall fuel b s', seq_run fuel p None false (seq_init p b) = (s', true) ->
+  Peel.seqrun cont (Abs.clt cont cltb) lpstate (ahandle p) (s0 p)
+    (map pay (init_events p (nlps p) 0)) (map pay (rev (q_log s'))).
+Proof. exact reference_run_is_sequential. Qed.
+
 Print Assumptions C10_step_dispatches_minimal_exactly_once.
+Print Assumptions C10_reference_run_is_a_sequential_execution.
 Print Assumptions C10_pending_sorted_from_init.
 Print Assumptions C10_pending_sorted_invariant.
 Print Assumptions C10_heap_insert_keeps_heap.
